@@ -143,4 +143,9 @@ def run(F, G):
         got = after[0].bb not in b.reachable(nx[0].bb, no_edges=[(sw, m.get(0, other))])
         if got != want:
             fails.append("exhaustion control %s: leaves-only-at-None = %s, expected %s" % (name, got, want))
+    # 8. named &str constants resolve to their text (SQL moved into a `const` must stay readable)
+    n += 1
+    got = {k.rsplit("::", 1)[-1]: v.get("s") for k, v in F.consts.items() if k.endswith("_SQL")}
+    if got.get("MODULE_SQL") != "SELECT 1 FROM module_level" or got.get("LOCAL_SQL") != "SELECT 2 FROM fn_level":
+        fails.append("named-const control: &str constants not resolved (%s)" % got)
     return n, fails
